@@ -118,7 +118,7 @@ def apply_op(f, op):
     k = kind_of(cls, n)
     cur = getattr(m, n)
     if action == 'set-none':
-        setattr(m, n, None); return m, ('set', n, None)
+        setattr(m, n, None); return m, (('set' if k == 'optional_node_property' else 'val'), n, None)
     if action == 'set-copy':
         if cur is None:
             d = pick_donor_value(m, n, 1, raw=True)
@@ -232,10 +232,16 @@ def check_after(prop, f, m, snap, opinfo, changed_child_ids):
         na = len(snap['after'])
         tail = toks[len(toks) - na:] if na else []
         if any(x is not y for x, y in zip(tail, snap['after'])): return 'C03: tokens after the parent lost identity/order'
+        # only the child itself may change: among the children that were there before, at most ONE may print differently
+        # (the one the property denotes - e.g. the Date behind `.date`, the cost behind `number_per`); with a node-level add/remove none may
+        diff = []
         for c, t in snap['kids']:
             if id(c) in changed_child_ids: continue
             still = [x for x in tree.real_children(m) if x is c]
-            if still and tree.model_text(c) != t: return f'C03: sibling {type(c).__name__} text changed {t!r} -> {tree.model_text(c)!r}'
+            if still and tree.model_text(c) != t: diff.append(f'{type(c).__name__} {t!r} -> {tree.model_text(c)!r}')
+        allowed = 1 if opinfo[0] in ('val', 'list') and not changed_child_ids else 0
+        if opinfo[0] == 'list' and not changed_child_ids: allowed = 1
+        if len(diff) > allowed: return f'C03: sibling text changed: {diff[:3]}'
     if prop == 'C06':
         try:
             g = parse(text)
